@@ -104,8 +104,8 @@ pub fn random_spec_at(depth_max: u8, mixed: bool, anchor_fractions: Vec<f64>) ->
   let nl = mb::n_leaves(depth_max);
   let anchors: Vec<u64> = anchor_fractions.iter().map(|f| ((f * nl as f64) as u64).min(nl - 1)).collect();
   let cell = (0usize..3, 0u8..=depth_max, prop_oneof![3 => Just(0u8), 2 => 1u8..=3, 1 => 0u8..=29], -4i64..=4, any::<bool>(), any::<bool>());
-  (Just(anchors), prop::collection::vec(cell, 0..28), 0u8..10, prop::collection::vec((0u8..10, any::<u64>()), 12))
-    .prop_map(move |(anchors, cells, degenerate, per_base)| {
+  (Just(anchors), prop::collection::vec(cell, 0..28), 0u8..10, prop::collection::vec((0u8..10, any::<u64>()), 12), prop::collection::vec((0.0f64..1.0, 1u8..=3), 0..4))
+    .prop_map(move |(anchors, cells, degenerate, per_base, splits)| {
       let mut cand: Vec<MCell> = vec![];
       for (ai, d_uniform, d_from_max, off, flag, use_uniform) in cells {
         let d = if use_uniform { d_uniform } else { depth_max.saturating_sub(d_from_max) };
@@ -121,11 +121,12 @@ pub fn random_spec_at(depth_max: u8, mixed: bool, anchor_fractions: Vec<f64>) ->
           shape = "empty";
         }
         1 => {
-          cand = (0..12).map(|h| MCell { depth: 0, hash: h, full: true }).collect();
+          // (mixed: each base cell full or partial)
+          cand = (0..12).map(|h| MCell { depth: 0, hash: h, full: !mixed || per_base[h as usize].1 >> 62 & 1 == 0 }).collect();
           shape = "all_sky";
         }
         2 => {
-          cand = vec![MCell { depth: depth_max, hash: if anchors[0] & 1 == 0 { 0 } else { nl - 1 }, full: true }];
+          cand = vec![MCell { depth: depth_max, hash: if anchors[0] & 1 == 0 { 0 } else { nl - 1 }, full: !mixed || per_base[0].1 >> 62 & 1 == 0 }];
           shape = "single_first_or_last_leaf";
         }
         3 if depth_max > 0 => {
@@ -134,7 +135,7 @@ pub fn random_spec_at(depth_max: u8, mixed: bool, anchor_fractions: Vec<f64>) ->
           let skip = anchors[1] & 3;
           for k in 0..4u64 {
             if k != skip {
-              cand.push(MCell { depth: depth_max, hash: (p << 2) | k, full: true });
+              cand.push(MCell { depth: depth_max, hash: (p << 2) | k, full: !mixed || per_base[k as usize].1 >> 61 & 3 != 0 });
             }
           }
           shape = "three_siblings";
@@ -146,7 +147,7 @@ pub fn random_spec_at(depth_max: u8, mixed: bool, anchor_fractions: Vec<f64>) ->
           cand.retain(|c| per_base[in_base(c)].0 == 9);
           for (b, &(choice, bits)) in per_base.iter().enumerate() {
             match choice {
-              0..=6 => cand.push(MCell { depth: 0, hash: b as u64, full: true }),
+              0..=6 => cand.push(MCell { depth: 0, hash: b as u64, full: !mixed || bits >> 62 & 3 != 0 }),
               8 if depth_max > 0 => {
                 let d = 1 + (bits % depth_max.min(4) as u64) as u8;
                 let h = ((b as u64) << (2 * d as u32)) | ((bits >> 8) & ((1u64 << (2 * d as u32)) - 1));
@@ -170,7 +171,27 @@ pub fn random_spec_at(depth_max: u8, mixed: bool, anchor_fractions: Vec<f64>) ->
           end = e;
         }
       }
-      Spec::from_mcells(depth_max, &out, shape)
+      // un-pack: replace some cells by their 4 children, 1..3 levels down (same cell-to-state map;
+      // four full siblings, cascades of them and coarse-next-to-fine shapes that only a real
+      // packing / merging pass removes)
+      let mut split_any = false;
+      for (fr, levels) in splits {
+        if out.is_empty() {
+          break;
+        }
+        let k = ((fr * out.len() as f64) as usize).min(out.len() - 1);
+        let c = out[k];
+        let levels = levels.min(depth_max - c.depth);
+        if levels == 0 {
+          continue;
+        }
+        let n = 1u64 << (2 * levels as u32);
+        let kids: Vec<MCell> = (0..n).map(|q| MCell { depth: c.depth + levels, hash: (c.hash << (2 * levels as u32)) | q, full: c.full }).collect();
+        out.splice(k..=k, kids);
+        split_any = true;
+      }
+      let shape = if split_any { format!("{}+split", shape) } else { shape.to_string() };
+      Spec::from_mcells(depth_max, &out, &shape)
     })
     .boxed()
 }
